@@ -2129,6 +2129,48 @@ func c10r10(p *Program, r *Report) {
 			r.Unresolved("newTokenRing: no loop over the hosts parameter")
 		}
 	}
+	// the function that recomputes the replica maps is known by what it does (it walks clusterMeta.replicas and
+	// assigns the field), not by its name
+	replicasF := p.Field("clusterMeta", "replicas")
+	var updaters []*FuncInfo
+	for _, fi := range p.SortedFuncs() {
+		if fi.Pkg != p.Root || fi.Decl.Body == nil || replicasF == nil {
+			continue
+		}
+		info := fi.Pkg.TypesInfo
+		walks, assigns := false, false
+		inspectNoLit(fi.Decl.Body, func(x ast.Node) bool {
+			switch s := x.(type) {
+			case *ast.RangeStmt:
+				if fieldOf(info, s.X) == replicasF {
+					walks = true
+				}
+			case *ast.AssignStmt:
+				for _, l := range s.Lhs {
+					if fieldOf(info, l) == replicasF {
+						assigns = true
+					}
+				}
+			}
+			return true
+		})
+		if walks && assigns {
+			updaters = append(updaters, fi)
+		}
+	}
+	isUpdate := func(info *types.Info, c *ast.CallExpr) bool {
+		fn := calleeOf(info, c)
+		if fn == nil {
+			return false
+		}
+		h := p.FuncOf(fn)
+		for _, u := range updaters {
+			if u == h {
+				return true
+			}
+		}
+		return false
+	}
 	// (b) order of ring rebuild and replica recomputation
 	nb := 0
 	p.forEachFunc(false, func(fi *FuncInfo) {
@@ -2141,7 +2183,7 @@ func c10r10(p *Program, r *Report) {
 			if isCallTo(info, c, "(*clusterMeta).resetTokenRing") {
 				resets = append(resets, c)
 			}
-			if isCallTo(info, c, "(*tokenAwareHostPolicy).updateReplicas") {
+			if isUpdate(info, c) {
 				updates = append(updates, c)
 			}
 		}
@@ -2171,9 +2213,12 @@ func c10r10(p *Program, r *Report) {
 		r.Unresolved("no function both rebuilds the token ring and recomputes the replica maps")
 	}
 	// (c) carry-over of the other keyspaces
-	if fi := r.NeedFunc("(*tokenAwareHostPolicy).updateReplicas"); fi != nil {
+	if len(updaters) == 0 {
+		r.Unresolved("no function walks clusterMeta.replicas and assigns the field (updateReplicas)")
+	}
+	for _, fi := range updaters {
 		info := fi.Pkg.TypesInfo
-		replicasField := p.Field("clusterMeta", "replicas")
+		replicasField := replicasF
 		found := false
 		ast.Inspect(fi.Decl.Body, func(x ast.Node) bool {
 			rs, ok := x.(*ast.RangeStmt)
